@@ -398,7 +398,7 @@ func (v *VM) exec() {
 			cur := v.stack[len(v.stack)-1]
 			cur.value.(*structT).TypeN = int(i.A)
 			v.stack = v.stack[:len(v.stack)-1]
-			if prev.IsNil() {
+			if prev.IsNil() || i.B == 1 { // B: a type declared in a function body: every execution of the declaration stands for itself
 				v.globals.Write(int(i.A), cur)
 			} else {
 				prev.syncFields(cur)
